@@ -389,7 +389,49 @@ func worldAtomByName(n string) *WorldAtom {
 			return &WorldAtoms[i]
 		}
 	}
+	for i := range MergeAtoms {
+		if MergeAtoms[i].Name == n {
+			return &MergeAtoms[i]
+		}
+	}
 	return nil
+}
+
+// MergeAtoms are schema shapes the merger accepts but no gateway can execute across services
+// (a plain, non-Node type whose fields are spread over services): they take part in the
+// merge checks (C03, C04, C05) only.
+var MergeAtoms = []WorldAtom{
+	{"plain-type-disjoint-fields", func(ss []*SvcSpec) []*SvcSpec {
+		ss[0].addType("Settings", "", "theme: String")
+		ss[0].Query = append(ss[0].Query, "settings0: Settings")
+		ss[1].addType("Settings", "", "locale: String", "zone: String")
+		ss[1].Query = append(ss[1].Query, "settings1: Settings")
+		return ss
+	}, false},
+	{"plain-type-disjoint-fields-fieldless-root", func(ss []*SvcSpec) []*SvcSpec {
+		// the second declarer reaches the type through no root field of its own
+		ss[0].addType("Prefs", "", "theme: String")
+		ss[0].Query = append(ss[0].Query, "prefs0: Prefs")
+		ss[1].addType("Prefs", "", "locale: String")
+		return ss
+	}, false},
+	{"plain-type-disjoint-fields-third-service", func(ss []*SvcSpec) []*SvcSpec {
+		ss[0].addType("Opts", "", "a: String")
+		ss[0].Query = append(ss[0].Query, "opts0: Opts")
+		ss[1].addType("Opts", "", "b: String")
+		s2 := newSvc(fmt.Sprintf("http://s%d", len(ss)))
+		s2.addType("Opts", "", "c: String")
+		s2.Query = []string{"visits: Int"}
+		return append(ss, s2)
+	}, false},
+}
+
+// EnumMergeWorlds is EnumWorlds over the world atoms plus the merge-only atoms.
+func EnumMergeWorlds(bases []string, dw int) []WorldDesc {
+	saved := WorldAtoms
+	WorldAtoms = append(append([]WorldAtom{}, WorldAtoms...), MergeAtoms...)
+	defer func() { WorldAtoms = saved }()
+	return EnumWorlds(bases, dw, 0)
 }
 
 func dataAtomByName(n string) *DataAtom {
